@@ -93,6 +93,27 @@ class RepeatIt:
         return Some(copyval(s.v))
 
 
+class CycleIt:
+    """Iterator::cycle: items are remembered as the inner iterator yields them and replayed for ever afterwards
+    (an empty inner iterator stays empty)"""
+
+    def __init__(s, inner):
+        s.inner, s.buf, s.k, s.replay = inner, [], 0, False
+
+    def next(s, I):
+        if not s.replay:
+            r = I.iter_next(s.inner)
+            if r.v == 1:
+                s.buf.append(r.f[0])
+                return Some(copyval(r.f[0]))
+            s.replay = True
+        if not s.buf:
+            return NONE()
+        v = s.buf[s.k % len(s.buf)]
+        s.k += 1
+        return Some(copyval(v))
+
+
 class SuccIt:
     def __init__(s, first, clo):
         s.cur, s.clo = first, clo
@@ -124,6 +145,7 @@ def install(M):
     pat(r'^<.* as Iterator>::step_by$', lambda I, it, n: StepByIt(it, conc(I, n, 'step')))
     pat(r'^<.* as Iterator>::inspect$', lambda I, it, clo: InspectIt(it, clo))
     pat(r'^<.* as Iterator>::fuse$', lambda I, it: it)
+    pat(r'^<.* as Iterator>::cycle$', lambda I, it: CycleIt(it))
     reg('std::iter::repeat', lambda I, v: RepeatIt(v))
     reg('std::iter::repeat_n', lambda I, v, n: RepeatIt(v, conc(I, n, 'repeat_n')))
     reg('std::iter::successors', lambda I, first, clo: SuccIt(first, clo))
